@@ -20,10 +20,17 @@ type ceremony struct {
 	T      int    `json:"t"`
 	V      int    `json:"v"`
 	Rep    int    `json:"repeat"`
+	// Focus "concurrent": the ceremony always runs in the targeted concurrent-duplicate mode.
+	Focus string `json:"focus,omitempty"`
 }
 
 func (c ceremony) String() string {
-	return fmt.Sprintf("%s n=%d t=%d v=%d rep=%d", c.Engine, c.N, c.T, c.V, c.Rep)
+	s := fmt.Sprintf("%s n=%d t=%d v=%d rep=%d", c.Engine, c.N, c.T, c.V, c.Rep)
+	if c.Focus != "" {
+		s += " focus=" + c.Focus
+	}
+
+	return s
 }
 
 // shareDump is the JSON form of one node's result for one validator (test keys only).
@@ -132,7 +139,13 @@ func checkShares(c *kit.Case, cer ceremony, results [][]share.Share, sched any, 
 	prefix := "dkg/" + cer.Engine + "/"
 	var st oracleStats
 
+	violated := false
 	viol := func(rule, what string, val int, extra map[string]any) {
+		if !violated {
+			violated = true
+			r.Count("ceremonies_rejected_by_oracle", 1)
+			r.Count("ceremonies_rejected_by_oracle/"+cer.Engine+"/"+cer.Focus, 1)
+		}
 		w := map[string]any{"ceremony": cer, "validator": val, "schedule": sched}
 		if val >= 0 {
 			w["shares_per_node"] = dumpShares(results, val)
